@@ -61,6 +61,13 @@ def prefix_statements(ret):
     return out
 
 
+MECH = {}
+
+
+def note(op, comp, mech):
+    MECH.setdefault((op, comp), set()).add(mech)
+
+
 def evidence(unit, fn, stmt, R, params, ev, bad):
     """collect (operand, component) contributions of one statement into R"""
     k = stmt['k']
@@ -74,6 +81,7 @@ def evidence(unit, fn, stmt, R, params, ev, bad):
                 if op is not None and len(rp) == 2:
                     for c in ('final', 'rules', 'start', 'startsym'):
                         ev.add((op, c))
+                        note(op, c, 'copy')
                 elif i is not None and i['k'] == 'CXXConstructExpr' and i.get('args'):
                     # copy-like constructor T(const T& aut, bool copyTrans = true, bool copyFinal = true)
                     rp = root_path(i['args'][0])
@@ -86,8 +94,10 @@ def evidence(unit, fn, stmt, R, params, ev, bad):
                         if len(flags) == 2:
                             if flags[0] is True:
                                 ev.add((op, 'rules'))
+                                note(op, 'rules', 'copy')
                             if flags[1] is True:
                                 ev.add((op, 'final'))
+                                note(op, 'final', 'copy')
             elif is_node(d.get('init')):
                 for n in walk(d['init'], lambdas=False):
                     call_evidence(unit, fn, n, R, params, ev, bad)
@@ -140,6 +150,7 @@ def call_evidence(unit, fn, n, R, params, ev, bad):
         if a0 is not None and a0.get('d') == R:
             for c in ('final', 'rules', 'start', 'startsym'):
                 ev.add((operand(orp, params), c))
+                note(operand(orp, params), c, 'renumbered')
         return
     if m == 'insert' and orp and orp[0] == 'local' and len(args) == 2:
         v = var_table(fn).get(R)
@@ -243,8 +254,13 @@ def run(unit, em):
                 continue
             R = rv['d']
             ev, bad = set(), []
+            MECH.clear()
             for s in prefix_statements(ret):
                 evidence(unit, fn, s, R, params, ev, bad)
+            for (op_, comp_), ms in sorted(MECH.items()):
+                if 'copy' in ms and 'renumbered' in ms:
+                    bad.append((ret, 'the %s of operand `%s` enter the result twice: copied in the operand\'s own numbering (constructor) and again renumbered (ReindexStates); the stale copies alias unrelated result states' % (
+                        {'final': 'final states', 'rules': 'rules', 'start': 'start states', 'startsym': 'start symbols'}[comp_], params[op_])))
             facts, _ = known_facts(ret)
             shared = any(pol is True and (strip(a) or {}).get('k') in ('CallExpr', 'CXXMemberCallExpr') and method_name(strip(a)) == 'ShareTransTable' for pol, a in facts)
             if shared and cls == 'BDDTDTreeAutCore':
